@@ -317,6 +317,31 @@ type runner struct {
 	findings []finding
 	stopOracle bool
 	outOfDomain bool
+	// pathbadger: a child of a pending candidate that holds a non-zero pending sequence number was
+	// accepted (known finding finKeyPathPipe): every later answer of this backend may depend on
+	// misread nodes
+	tainted  bool
+	seqCount map[string]int // "ver/typ" -> batches that reserved a sequence number
+	seqOf    map[string]int // "ver/rid" -> sequence number of the batch that created the root
+}
+
+func (r *runner) addFinding(key, what string) {
+	for _, f := range r.findings {
+		if f.key == key {
+			return
+		}
+	}
+	r.findings = append(r.findings, finding{key, what})
+}
+
+// flag records a failure of the property: a violation, or - for pathbadger after the known
+// pipelining shape occurred in this history - a consequence of that finding.
+func (r *runner) flag(what string) {
+	if r.kind == "pathbadger" && r.tainted {
+		r.addFinding(finKeyPathPipe, what+" [after a child of a non-first pending candidate was accepted]")
+		return
+	}
+	r.viol = append(r.viol, what)
 }
 
 type finding struct{ key, what string }
@@ -347,7 +372,7 @@ func newRunner(kind string, pl *plan) (*runner, error) {
 		return nil, err
 	}
 	r := &runner{kind: kind, dir: dir, pl: pl, seen: map[string]bool{}, nodeID: map[hash.Hash]int{}, reach: map[int][]int{}, inl: map[int][]int{},
-		putAt: map[int]map[int]bool{}, stats: map[string]int{}, lastBad: map[string]bool{}, putsBy: map[string]map[int]bool{}, removedBy: map[string]map[int]bool{}}
+		putAt: map[int]map[int]bool{}, stats: map[string]int{}, lastBad: map[string]bool{}, putsBy: map[string]map[int]bool{}, removedBy: map[string]map[int]bool{}, seqCount: map[string]int{}, seqOf: map[string]int{}}
 	r.rec = &recDB{NodeDB: ndb}
 	r.ndb = r.rec
 	r.ref = refState{present: map[uint64]map[int]bool{}, derived: map[string][]int{}, finalized: map[uint64]bool{}}
@@ -488,7 +513,7 @@ func (r *runner) step(op Op) (o opObs) {
 		if p := recover(); p != nil {
 			o.class = eOther
 			o.errText = fmt.Sprintf("PANIC: %v", p)
-			r.viol = append(r.viol, fmt.Sprintf("%s: %s panicked: %v", r.kind, op.K, p))
+			r.flag(fmt.Sprintf("%s: %s panicked: %v", r.kind, op.K, p))
 		}
 	}()
 	switch op.K {
@@ -533,7 +558,7 @@ func (r *runner) step(op Op) (o opObs) {
 			break
 		}
 		if !h.Equal(&ri.hash) && !r.unsupported && !r.outOfDomain {
-			r.viol = append(r.viol, fmt.Sprintf("%s: commit of root %d returned hash %s, contents hash to %s", r.kind, op.ID, h, ri.hash))
+			r.flag(fmt.Sprintf("%s: commit of root %d returned hash %s, contents hash to %s", r.kind, op.ID, h, ri.hash))
 		}
 		// reference bookkeeping
 		if r.ref.present[ri.ver] == nil {
@@ -551,6 +576,14 @@ func (r *runner) step(op Op) (o opObs) {
 		}
 		fresh := !r.ref.present[ri.ver][ri.rid]
 		r.ref.present[ri.ver][ri.rid] = true
+		sk := fmt.Sprintf("%d/%d", ri.ver, ri.typ)
+		if fresh {
+			r.seqOf[kk] = r.seqCount[sk]
+		}
+		r.seqCount[sk]++
+		if r.kind == "pathbadger" && fresh && oi != nil && oi.rid >= 2 && oi.ver+1 == ri.ver && !r.ref.finalized[oi.ver] && r.seqOf[vr(oi.ver, oi.rid)] != 0 {
+			r.tainted = true
+		}
 		if fresh && oi != nil && oi.rid >= 2 {
 			r.ref.derived[vr(oi.ver, oi.rid)] = append(r.ref.derived[vr(oi.ver, oi.rid)], ri.rid)
 		}
@@ -660,15 +693,10 @@ func (r *runner) oracle(op Op, o *opObs) {
 	}
 	report := func(key, what string) {
 		if key == "" {
-			r.viol = append(r.viol, what)
+			r.flag(what)
 			return
 		}
-		for _, f := range r.findings {
-			if f.key == key {
-				return
-			}
-		}
-		r.findings = append(r.findings, finding{key, what})
+		r.addFinding(key, what)
 	}
 	for _, ro := range o.roots {
 		if ro.rid < 2 {
@@ -707,18 +735,8 @@ func (r *runner) oracle(op Op, o *opObs) {
 				continue
 			}
 			r.lastBad[key] = true
-			k := ""
-			if r.kind == "pathbadger" && op.K == "commit" && op.Old != 0 && ro.has {
-				if oi := r.pl.roots[op.Old]; oi.ver+1 == op.Ver && !r.ref.finalized[oi.ver] && r.pl.roots[op.ID].rid == ro.rid && ro.ver == op.Ver {
-					k = finKeyPathPipe
-				}
-			}
-			report(k, fmt.Sprintf("%s: pending candidate root (version %d, root #%d) is not readable after %s(%d): has=%v status=%s",
+			report("", fmt.Sprintf("%s: pending candidate root (version %d, root #%d) is not readable after %s(%d): has=%v status=%s",
 				r.kind, ro.ver, ro.rid, op.K, op.Ver, ro.has, stName(ro.status)))
-			if k != "" {
-				r.stopOracle = true
-				return
-			}
 		case !finalized && !pending && ro.has && ro.status != stExact:
 			if r.lastBad[key] {
 				continue
@@ -886,6 +904,7 @@ type caseResult struct {
 	finds       []finding
 	unsupported bool
 	outOfDomain bool
+	cutP        int // >= 0: K compares pathbadger on ops[0..cutP-1] only (known pipelining shape accepted at cutP)
 	cutAt       int // K compares ops[0..cutAt] only: after badger lost a node, reads depend on tree paths
 	stats       map[string]int
 	crashed     string
@@ -917,6 +936,7 @@ func runCase(c Case, pl *plan) caseResult {
 	defer rp.close()
 	diverged := false
 	res.cutAt = len(c.Ops) - 1
+	res.cutP = -1
 	for i, op := range c.Ops {
 		ob := rb.step(op)
 		rb.observe(&ob)
@@ -926,11 +946,14 @@ func runCase(c Case, pl *plan) caseResult {
 		rp.oracle(op, &opp)
 		res.obsB = append(res.obsB, ob)
 		res.obsP = append(res.obsP, opp)
-		if (rb.stopOracle || rp.stopOracle) && res.cutAt == len(c.Ops)-1 {
+		if rb.stopOracle && res.cutAt == len(c.Ops)-1 {
 			res.cutAt = i
 		}
+		if rp.tainted && res.cutP < 0 {
+			res.cutP = i // pathbadger's part of the case ends before the tainting commit
+		}
 		// backend equivalence on histories both accept, up to the first divergence caused by a reported defect
-		if rp.unsupported || diverged || rb.stopOracle || rp.stopOracle {
+		if rp.unsupported || diverged || rb.stopOracle {
 			continue
 		}
 		a, b := ob, opp
@@ -939,20 +962,20 @@ func runCase(c Case, pl *plan) caseResult {
 			if op.K == "prune" && a.class == eNodeNotFound && b.class == eOk && rb.loneEmptyRootAt(op.Ver) {
 				rb.findings = append(rb.findings, finding{finKeyPruneEmpty, what})
 			} else {
-				rb.viol = append(rb.viol, what)
+				rp.flag(what)
 			}
 			diverged = true
 			continue
 		}
 		if a.earliest != b.earliest || a.hasLast != b.hasLast || a.last != b.last {
-			rb.viol = append(rb.viol, fmt.Sprintf("backends disagree on earliest/latest after op %d (%s %d)", i, op.K, op.Ver))
+			rp.flag(fmt.Sprintf("backends disagree on earliest/latest after op %d (%s %d)", i, op.K, op.Ver))
 			diverged = true
 			continue
 		}
 		for j := range a.roots {
 			x, y := a.roots[j], b.roots[j]
 			if x.has != y.has || x.status != y.status {
-				rb.viol = append(rb.viol, fmt.Sprintf("backends disagree on root (version %d, #%d) after op %d (%s %d): badger has=%v %s, pathbadger has=%v %s",
+				rp.flag(fmt.Sprintf("backends disagree on root (version %d, #%d) after op %d (%s %d): badger has=%v %s, pathbadger has=%v %s",
 					x.ver, x.rid, i, op.K, op.Ver, x.has, stName(x.status), y.has, stName(y.status)))
 				diverged = true
 				break
@@ -1517,6 +1540,10 @@ func main() {
 			ops[i] = coqOp(op, pl, res.obsB[i])
 			ob[i] = coqObs(res.obsB[i], false)
 			op2[i] = coqObs(res.obsP[i], c.Ops[i].K == "commit")
+		}
+		if res.cutP >= 0 && res.cutP < len(op2) {
+			op2 = op2[:res.cutP]
+			sum.Count("misc", "pathbadger-part-truncated-for-K-after-known-pipelining-shape")
 		}
 		term := fmt.Sprintf("((%s, %s), (%s, %s))", coqout.List(ops), coqout.Bool(!res.unsupported), coqout.List(ob), coqout.List(op2))
 		wb.Add(term, map[string]any{"case": c})
